@@ -105,6 +105,9 @@ func newTopo(c Case) *topo {
 		hosts[0].Mirrors = append(hosts[0].Mirrors, hostNames[m.ID])
 		hosts = append(hosts, config.Host{Name: hostNames[m.ID], Hostname: hostNames[m.ID], TLS: config.TLSDisabled, Priority: uint(m.Prio), User: "u", Pass: "p"})
 	}
+	if c.Kind == "uploadloop" { // several chunks per upload
+		hosts[0].BlobChunk = 64
+	}
 	lim := c.Limit
 	if lim <= 0 {
 		lim = 3
@@ -264,6 +267,40 @@ func runMutate(c Case, res *lib.Result) {
 		}
 	}
 	res.Count("mutate:" + c.API)
+}
+
+// an upload session whose every chunk is refused (c.Drops = the status, 400 / 500 / 404) while the session status
+// request keeps answering 204 with an unchanged Range: BlobPut must give up after a bounded number of requests
+func runUploadLoop(c Case, res *lib.Result) {
+	t := newTopo(c)
+	patches := 0
+	t.hook = func(hi int, req *http.Request, n int) *http.Response {
+		if req.Method == "PATCH" && strings.Contains(req.URL.Path, "/blobs/uploads/") {
+			patches++
+			if patches == 1 || patches > 3000 { // the first chunk is stored, so that the session reports a Range
+				return nil
+			}
+			return memrt.Resp(c.Drops, nil, []byte(`{"errors":[{"code":"BLOB_UPLOAD_INVALID"}]}`))
+		}
+		return nil
+	}
+	ctx, cancel := context.WithTimeout(context.Background(), 10*time.Second)
+	defer cancel()
+	r, _ := ref.New(hostNames[0] + "/repo:tag")
+	nb := bytes.Repeat([]byte("0123456789"), 30)
+	_, err := t.rc.BlobPut(ctx, r, descriptor.Descriptor{}, io.MultiReader(bytes.NewReader(nb)))
+	if os.Getenv("VH_DEBUG") != "" {
+		for _, rec := range t.rt.Records() {
+			fmt.Println("REQ", rec.N, rec.Method, rec.Path, rec.Query, rec.Header.Get("Content-Range"), len(rec.Body), "->", rec.Status)
+		}
+		fmt.Println("ERR", err, "patches", patches)
+	}
+	if ctx.Err() != nil || patches > 200 {
+		res.Fail("upload-repeats-without-progress", fmt.Sprintf("every chunk refused with %d, status probe 204 with unchanged Range: %d PATCH requests, still running after 10s: %v", c.Drops, patches, ctx.Err() != nil), c)
+	} else if err == nil && patches <= 3000 {
+		res.Fail("upload-repeats-without-progress", "the upload reported success although every chunk was refused", c)
+	}
+	res.Count(fmt.Sprintf("uploadloop:%d", c.Drops))
 }
 
 // k transient faults (k < limit) at the only host, then normal service: the operation must succeed
@@ -667,6 +704,8 @@ func runCaseRaw(c Case, res *lib.Result) string {
 		runTransient(c, res)
 	case "order":
 		runOrder(c, res)
+	case "uploadloop":
+		runUploadLoop(c, res)
 	case "resume":
 		runResume(c, res)
 	}
@@ -704,6 +743,9 @@ func Run(o lib.Opts) {
 	all = append(all, Case{Kind: "order", Limit: 3, Mirrors: []Host{{1, 1}, {2, 10}}, UpPrio: 5})
 	for d := 0; d <= 6; d++ {
 		all = append(all, Case{Kind: "resume", Limit: 4, Drops: d})
+	}
+	for _, st := range []int{400, 500, 404} {
+		all = append(all, Case{Kind: "uploadloop", Limit: 3, Drops: st})
 	}
 	// the same with a mirror that serves (and truncates) the blob as well, and with truncated responses that ask for a pause:
 	// every re-request of the body counts against the one attempt budget of the logical request
